@@ -6,6 +6,9 @@ open Nitime.C18.Props
 #print axioms fourier_linear
 #print axioms fourier_mean
 #print axioms fourier_real
+#print axioms fourier_pass_band
+#print axioms keepBin_spec
+#print axioms keepBin_symm
 #print axioms restoreDC_mean
 #print axioms filtfilt_wrapper_mean
 #print axioms filtfilt_wrapper_linear
